@@ -8,8 +8,8 @@ src = build.src().rstrip('/') if hasattr(build, 'src') else '/repo/src'
 import os
 src = os.path.join(build.REPO, 'src')
 for j in K.all_jobs():
-    if j.lang == 'cy' and sub in j.tag and j.contract.ensures:
-        r = rtc.run_rtc(j, src, count=cnt)
+    if sub in j.tag and j.contract.ensures and (j.lang == 'cy' or getattr(j.contract,'vectors',False)):
+        r = rtc._rtc_worker((j, src, cnt, 0, ()))
         v = r.pop('violated')
         print(j.tag, {k: r[k] for k in ('cases','evaluated','holds','nonterminating','raised','inapplicable','wall') if k in r}, 'skipped:', list(r['skipped'].values())[:2], 'ERR' if r['error'] else '')
         if r['error']: print(r['error'])
